@@ -716,10 +716,15 @@ func (p *Parameters) ReadFrom(r io.Reader) (n int64, err error) {
 			return int64(n), fmt.Errorf("buffer.ReadAsUint64[int]: %w", err)
 		}
 
+		// The JSON of a parameters literal is a few hundred bytes.
+		if size > 1<<20 {
+			return n, fmt.Errorf("invalid length %d of the parameters block", size)
+		}
+
 		bytes := make([]byte, size)
 
 		var inc int
-		if inc, err = r.Read(bytes); err != nil {
+		if inc, err = io.ReadFull(r, bytes); err != nil {
 			return n + int64(inc), fmt.Errorf("io.Reader.Read: %w", err)
 		}
 		return n + int64(inc), p.UnmarshalJSON(bytes)
